@@ -119,6 +119,30 @@ def run(chk):
                             (lambda name=name, t=t, x=x, u=u, exp_axes=exp_axes: compare(fn(name)(t, x, u, P), spec_adv(2), exp_axes, name)),
                             construct=name)
 
+    # a separable network evaluated on ONE point (a batch with a single row): the grid has one node, the operators are the same
+    import numpy as np
+    from ..alg import AT
+    for d in (1, 2, 3):
+        for has_t in (False, True):
+            et = 'nonstatio_PDE' if has_t else 'statio_PDE'
+            cfg = {"d": d, "time": has_t, "kind": "SPINN", "rows": 1}
+            x = AT((1, d), np.array([[Poly.atom(('X', j, frozenset())) for j in range(d)]], dtype=object))
+            t = AT((1, 1), np.array([[Poly.atom(('T', frozenset()))]], dtype=object)) if has_t else None
+            gax = (1,) * (d + (1 if has_t else 0))
+            u = Net('u', 'SPINN', d, et, d)
+            u1 = Net('u', 'SPINN', 1, et, d)
+            chk.run("C01.R1", f"{MOD}:_div_fwd", cfg,
+                    (lambda t=t, x=x, u=u, gax=gax, d=d: compare(fn("_div_fwd")(t, x, u, P), spec_div(d), gax, "_div_fwd")),
+                    construct="_div_fwd[one point]")
+            chk.run("C01.R1", f"{MOD}:_laplacian_fwd", cfg,
+                    (lambda t=t, x=x, u1=u1, gax=gax, d=d: compare(fn("_laplacian_fwd")(t, x, u1, P), spec_lap(d), gax, "_laplacian_fwd")),
+                    construct="_laplacian_fwd[one point]")
+            um = Net('u', 'SPINN', d + 1, et, d)
+            chk.run("C01.R1", f"{MOD}:_vectorial_laplacian", dict(cfg, m=d + 1),
+                    (lambda t=t, x=x, um=um, gax=gax, d=d: compare(fn("_vectorial_laplacian")(t, x, um, P, d + 1), spec_veclap(d, d + 1),
+                                                                  (d + 1,) + gax, "_vectorial_laplacian")),
+                    construct="_vectorial_laplacian[SPINN, one point]")
+
     # R4 exports
     try:
         pkg = w.module("jinns.loss")
